@@ -132,6 +132,9 @@ def task_yaml(t, root):
         L.append("  ignore_errors: " + ("true" if t["ignore"] else "false"))
     if t["changed_when"] is not None:
         L.append("  changed_when: " + q(expr_j(t["changed_when"])))
+    if t.get("become"):
+        L.append("  become: true")
+        L.append("  become_user: nobody")
     if t["check_mode"] is not None:
         L.append("  check_mode: " + ("true" if t["check_mode"] else "false"))
     return "\n".join(L) + "\n"
@@ -228,6 +231,14 @@ def run_one_impl(root, c, timeout):
         with open(p, "w") as fh:
             fh.write(file_text(f, root))
     os.chmod(root, 0o755)
+    if c.get("world_writable"):
+        # an unprivileged become target must be able to append to the marker log and create files
+        os.chmod(root, 0o777)
+        os.chmod(os.path.join(root, "out"), 0o777)
+        open(os.path.join(root, "log"), "w").close()
+        os.chmod(os.path.join(root, "log"), 0o666)
+        for name in c["files"]:
+            os.chmod(os.path.join(root, name), 0o644)
     cmd = [C.RASH] + c.get("rash_args", []) + ["--output", "raw", os.path.join(root, c.get("script", "main.rh"))] + c.get("argv", [])
     env = dict(os.environ)
     env.update(c.get("env", {}))
